@@ -25,6 +25,8 @@ Check(t) ==
              nj == Cardinality(J)
          IN
          IF bad # {} THEN <<"membership", "", nj>>
+         ELSE IF t.exc2 # "" THEN <<"contains-failed(parameters as columns):" \o t.exc2, "", nj>>
+         ELSE IF t.bits2 # <<>> /\ (~t.shape2_ok \/ t.bits2 # t.bits) THEN <<"membership(parameters as columns)", "", nj>>
          ELSE IF ~t.nv_ok THEN <<"necessary-variables", "", nj>>
          \* boundary clauses only for expressions that denote a set of positive measure on the query lattice
          ELSE IF t.bd = "none" \/ Cardinality({i \in J : t.bits[i] = 1}) < 4 THEN <<"ok", "", nj>>
